@@ -226,8 +226,16 @@ def eval_modifiers(st):
     from vf import callsem
     for shape in [s for s in space.universe(2, 'ab') if space.name_sorted(s)]:
         poks = [p[0] for p in shape if p[1] == POK]
+        stacked = []
+        if len(poks) >= 2:
+            # two modifiers stacked on one function, either order, and a third kind on top
+            stacked = [(lambda f_, a=poks[0], b=poks[-1]: M.kwoargs(b)(M.posoargs(end=a)(f_)), 'kwoargs over posoargs'),
+                       (lambda f_, a=poks[0], b=poks[-1]: M.posoargs(end=a)(M.kwoargs(b)(f_)), 'posoargs over kwoargs'),
+                       (lambda f_, a=poks[0], b=poks[-1]: M.annotate(**{a: int})(M.kwoargs(b)(f_)), 'annotate over kwoargs')]
+        if poks:
+            stacked.append((lambda f_, b=poks[-1]: M.kwoargs(b)(M.autokwoargs(f_)), 'kwoargs over autokwoargs'))
         for sel in poks:
-            for deco, nm in ((M.kwoargs(sel), 'kwoargs'), (M.posoargs(end=sel), 'posoargs')):
+            for deco, nm in ((M.kwoargs(sel), 'kwoargs'), (M.posoargs(end=sel), 'posoargs')) + tuple(stacked if sel == poks[0] else ()):
                 f = callsem.valued_func(shape, cache=False)
                 try:
                     g = deco(f)
